@@ -255,7 +255,8 @@ func ruleWhoWritesTables(w *World, r *Report, rSingle, rCache string, la *LockAn
 			con := fmt.Sprintf("%s#singletons.%s/%d", fi.Name(), m, n)
 			switch m {
 			case "Store", "LoadOrStore", "Swap", "CompareAndSwap":
-				r.Check(fi == ro.setSingleton, rSingle, con, a.Pos(), false, "the singleton table is written only by setSingleton", "the singleton table is written in "+fi.Name()+" (only setSingleton, reached from setInstance's Singleton clause, may store singletons)")
+				okW := fi == ro.setSingleton || onlyFromSingletonPaths(w, ro, fi, 3)
+				r.Check(okW, rSingle, con, a.Pos(), false, "the singleton table is written only by setSingleton (or its private caching half, reached under Lifetime == Singleton only)", "the singleton table is written in "+fi.Name()+" (only setSingleton, reached from setInstance's Singleton clause, may store singletons)")
 			case "Delete", "LoadAndDelete", "Clear", "CompareAndDelete":
 				r.Check(fi == closeP || isHelperOfClose(w, fi), rSingle, con, a.Pos(), false, "singletons are removed only by the provider's Close", "a singleton is removed from the table in "+fi.Name()+", outside the provider's Close: a later resolution fails or a new instance appears")
 			default:
@@ -1278,6 +1279,10 @@ func ruleCreateChain(w *World, r *Report, rule string) {
 				}
 			}
 			isErr := len(ex.Ret.Results) == 2 && isNilIdent(info, ex.Ret.Results[0]) && !isNilIdent(info, ex.Ret.Results[1])
+			// a wrapper that is only reached where the lifetime dispatch decided for Scoped / Singleton
+			if !excl {
+				excl = wrapperExcludesTransient(w, ro, fi, 3)
+			}
 			r.Check(direct || at.Has("created") || excl || isErr, rule, con, ex.Pos, true,
 				"the wrapper returns what a call further down the creation chain produced on this path, or the path excludes transient services",
 				fi.Name()+" can return an instance that was not produced by this call on a path that transient services take too: concurrent or repeated requests for a transient share one instance")
@@ -1292,7 +1297,8 @@ func ruleCreateChain(w *World, r *Report, rule string) {
 // dispatched to lifetime L - fi is setInstance itself, or a private helper all of
 // whose call sites satisfy the same condition.
 func onlyUnderLifetime(w *World, ro *roles, fi *FuncInfo, pos token.Pos, L string, depth int) bool {
-	if fi == ro.setInstance {
+	// setInstance, or a storing helper of the creation chain that dispatches on the lifetime itself
+	if fi == ro.setInstance || (recvIs(fi, "scope") && fi != ro.resolve && fi != ro.resolveTop && !ro.isCreate(fi.Obj) && lifetimeDispatch(w, fi).dispatches()) {
 		d := lifetimeDispatch(w, fi)
 		if !d.dispatches() || !d.reachableUnder(w, L, pos) {
 			return false
@@ -1544,4 +1550,61 @@ func normExprSub(hinfo *types.Info, e ast.Expr, h *FuncInfo, c *ast.CallExpr, ca
 		return exprStr(e)
 	}
 	return norm(e)
+}
+
+// onlyFromSingletonPaths: fi is a private function every call site of which is
+// setSingleton, or lies where a lifetime dispatch has decided for Singleton.
+func onlyFromSingletonPaths(w *World, ro *roles, fi *FuncInfo, depth int) bool {
+	if depth == 0 || fi.Obj.Exported() {
+		return false
+	}
+	callers := w.Callers()[fi]
+	if len(callers) == 0 {
+		return false
+	}
+	for c := range callers {
+		if c == ro.setSingleton {
+			continue
+		}
+		for _, call := range callsIn(c.Decl.Body, true) {
+			if callee(c.Pkg.TypesInfo, call) != fi.Obj {
+				continue
+			}
+			if !onlyUnderLifetime(w, ro, c, call.Pos(), "Singleton", depth-1) {
+				return false
+			}
+		}
+	}
+	return true
+}
+
+// wrapperExcludesTransient: every call site of the wrapper lies in resolve where
+// the dispatch has decided for a lifetime other than Transient, or in another
+// wrapper of which the same holds.
+func wrapperExcludesTransient(w *World, ro *roles, fi *FuncInfo, depth int) bool {
+	if depth == 0 {
+		return false
+	}
+	callers := w.Callers()[fi]
+	if len(callers) == 0 {
+		return false
+	}
+	for c := range callers {
+		for _, call := range callsIn(c.Decl.Body, true) {
+			if callee(c.Pkg.TypesInfo, call) != fi.Obj {
+				continue
+			}
+			if c == ro.resolve {
+				d := lifetimeDispatch(w, c)
+				if !d.dispatches() || d.reachableUnder(w, "Transient", call.Pos()) {
+					return false
+				}
+				continue
+			}
+			if !ro.creators[c.Obj] || c == ro.createInstance || !wrapperExcludesTransient(w, ro, c, depth-1) {
+				return false
+			}
+		}
+	}
+	return true
 }
